@@ -185,7 +185,7 @@ Lemma run_exit_log i s x vis s1 r :
   run_exit i s x vis = (s1, r) -> log_ext s s1 inner_entry.
 Proof.
   unfold run_exit.
-  destruct (assoc x (i_exit_inst i)) as [[|]|]; destruct (assoc x (i_exit_meth i)) as [[|]|];
+  destruct (assoc x (i_exit_inst i)) as [[| |]|]; destruct (assoc x (i_exit_meth i)) as [[| |]|];
     intros H; inversion H; subst;
     first [apply log_ext_refl
           | unfold log_ext; simpl; eexists; split;
@@ -247,7 +247,7 @@ Lemma run_exit_tags i s x vis s1 r :
 Proof.
   unfold run_exit.
   assert (T : tag_eqb vis vis = true) by (destruct vis; simpl; [apply Z.eqb_refl|reflexivity]).
-  destruct (assoc x (i_exit_inst i)) as [[|]|]; destruct (assoc x (i_exit_meth i)) as [[|]|];
+  destruct (assoc x (i_exit_inst i)) as [[| |]|]; destruct (assoc x (i_exit_meth i)) as [[| |]|];
     intros H; inversion H; subst; simpl;
     first [ exists []; split; [now rewrite app_nil_r|reflexivity]
           | eexists; split; [rewrite <- ?app_assoc; reflexivity
